@@ -131,7 +131,17 @@ func TestMeasureRandom(t *testing.T) {
 				cls = "add-returned-other-than-get"
 			}
 			tb, tcls := fbits(tv)
-			w.write(J{"ev": "Add", "trace": k, "x": xb, "val": vb, "cls": cls, "flag": flag, "changed": before != after, "twin": tb, "twincls": tcls})
+			// the hull of the samples is respected up to floating-point noise: 4 units in the last place either way
+			dn, up := vb, vb
+			if cls == "ok" {
+				bits := int64(math.Float64bits(val))
+				d := bits - 4
+				if d < 0 {
+					d = 0
+				}
+				dn, up = chunks(d), chunks(bits+4)
+			}
+			w.write(J{"ev": "Add", "trace": k, "x": xb, "val": vb, "valdn": dn, "valup": up, "cls": cls, "flag": flag, "changed": before != after, "twin": tb, "twincls": tcls})
 		}
 		// sample window: the same samples in two orders
 		ns := r.between(1, 9)
